@@ -280,6 +280,54 @@ Proof.
   cbn [app]. rewrite pdhg_full_trace. reflexivity.
 Qed.
 
+(* (c) only x_relax passed, (d) only y passed: the other one is a fresh local object *)
+Definition env_pdhg_xr : list (string * nat) :=
+  [("x", 0%nat); ("caller.x", 0%nat); ("x_relax", 1%nat); ("caller.x_relax", 1%nat); ("y", 2%nat);
+   ("x_old", 3%nat); ("dual_tmp", 4%nat); ("primal_tmp", 5%nat)].
+Lemma gen_pdhg_pre_xr x xr log :
+  option_map canon (exec pdhg_I pdhg_pre
+    (mk_hst [("x", 0%nat); ("caller.x", 0%nat); ("x_relax", 1%nat); ("caller.x_relax", 1%nat)] [x; xr] log))
+  = Some (mk_hst env_pdhg_xr (pdhg_enc (pdhg_init m x (Some xr) None, pdhg_junk)) log).
+Proof. symexec. Qed.
+Lemma gen_pdhg_body_xr f log :
+  body_step pdhg_I pdhg_body (mk_hst env_pdhg_xr (pdhg_enc f) log)
+  = Some (mk_hst env_pdhg_xr (pdhg_enc (pdhg_full_step f)) (log ++ [pd_x (fst (pdhg_full_step f))])).
+Proof. destruct f as [[x xr y] [[xo dt] pt]]. symexec. Qed.
+Lemma gen_pdhg_run_xr n x xr :
+  run_prog pdhg_I pdhg_pre pdhg_body n
+    (mk_hst [("x", 0%nat); ("caller.x", 0%nat); ("x_relax", 1%nat); ("caller.x_relax", 1%nat)] [x; xr] [])
+  = Some (mk_hst env_pdhg_xr (pdhg_enc (iter n pdhg_full_step (pdhg_init m x (Some xr) None, pdhg_junk)))
+            (trace pd_x n (pdhg_step L Ladj proxp proxd tau sigma theta) (pdhg_init m x (Some xr) None))).
+Proof.
+  unfold run_prog. rewrite gen_pdhg_pre_xr. cbn [obind].
+  rewrite (sim_iter env_pdhg_xr pdhg_enc (fun f => [pd_x (fst f)]) _ _ gen_pdhg_body_xr), traceL_single.
+  cbn [app]. rewrite pdhg_full_trace. reflexivity.
+Qed.
+Definition env_pdhg_y : list (string * nat) :=
+  [("x", 0%nat); ("caller.x", 0%nat); ("y", 1%nat); ("caller.y", 1%nat); ("x_relax", 2%nat);
+   ("x_old", 3%nat); ("dual_tmp", 4%nat); ("primal_tmp", 5%nat)].
+Definition pdhg_enc_y (f : pdhg_full) : list Rvec :=
+  let '(s, (xo, dt, pt)) := f in [pd_x s; pd_y s; pd_xr s; xo; dt; pt].
+Lemma gen_pdhg_pre_y x y log :
+  option_map canon (exec pdhg_I pdhg_pre
+    (mk_hst [("x", 0%nat); ("caller.x", 0%nat); ("y", 1%nat); ("caller.y", 1%nat)] [x; y] log))
+  = Some (mk_hst env_pdhg_y (pdhg_enc_y (pdhg_init m x None (Some y), pdhg_junk)) log).
+Proof. symexec. Qed.
+Lemma gen_pdhg_body_y f log :
+  body_step pdhg_I pdhg_body (mk_hst env_pdhg_y (pdhg_enc_y f) log)
+  = Some (mk_hst env_pdhg_y (pdhg_enc_y (pdhg_full_step f)) (log ++ [pd_x (fst (pdhg_full_step f))])).
+Proof. destruct f as [[x xr y] [[xo dt] pt]]. symexec. Qed.
+Lemma gen_pdhg_run_y n x y :
+  run_prog pdhg_I pdhg_pre pdhg_body n
+    (mk_hst [("x", 0%nat); ("caller.x", 0%nat); ("y", 1%nat); ("caller.y", 1%nat)] [x; y] [])
+  = Some (mk_hst env_pdhg_y (pdhg_enc_y (iter n pdhg_full_step (pdhg_init m x None (Some y), pdhg_junk)))
+            (trace pd_x n (pdhg_step L Ladj proxp proxd tau sigma theta) (pdhg_init m x None (Some y)))).
+Proof.
+  unfold run_prog. rewrite gen_pdhg_pre_y. cbn [obind].
+  rewrite (sim_iter env_pdhg_y pdhg_enc_y (fun f => [pd_x (fst f)]) _ _ gen_pdhg_body_y), traceL_single.
+  cbn [app]. rewrite pdhg_full_trace. reflexivity.
+Qed.
+
 (* what the caller sees in x, x_relax, y after a call with all three passed *)
 Lemma gen_pdhg_caller n x xr y :
   exists s, run_prog pdhg_I pdhg_pre pdhg_body n (mk_hst env_pdhg_in [x; xr; y] []) = Some s
